@@ -465,3 +465,27 @@ for w in ["u16", "u32", "u64", "u128"]:
       note="postcard-dyn's private reader == the SAME wire-format decoder spec dec_<w> as postcard's: same acceptance set, values, bytes consumed; no overflow / out-of-range shift")
 ASSUMPTIONS["C03"].append("Route V varint readers: the spec dec_<w> is the wire-format decoder in bit form (mirrors 7-bit little-endian groups); it is tied to an independently written arithmetic reference only through the Kani harnesses C03.K.de.take_*; try_take_varint_usize's `.map(|u| u as usize)` is dropped (identity on the 64-bit host)")
 ASSUMPTIONS["C17"].append("TakeExt::take_one is an external_body stub in unit dyndevarint; its contract is checked on the real code by Kani C17.K.dyn.take_ext")
+
+# ---------------------------------------------------------------- added after round-2 seeded changes were missed
+C05M = "postcard/src/lib.rs::verif_c05"
+for k, fs in [("plain", ["postcard::to_slice"]), ("cobs", ["postcard::to_slice_cobs"]), ("crc32", ["postcard::to_slice_crc32", "postcard::ser::flavors::crc::to_slice_u32"]),
+              ("empty_payload", ["postcard::to_slice", "postcard::to_slice_cobs", "postcard::to_slice_crc32"]), ("vec", ["postcard::to_vec"]), ("vec_cobs", ["postcard::to_vec_cobs"])]:
+    K("C05.K.api.threshold_" + k, C05M, "verif_c05::threshold_" + k, {"C05": "D"}, needs=(REF, PROBES), fns=fs + ["postcard::serialize_with_flavor"],
+      note="public entry point, every value of the probe, EVERY capacity (symbolic): Ok iff capacity >= complete output length, then exactly the unbounded output at the front and the rest untouched; else SerializeBufferFull and nothing written outside the buffer")
+K("C05.K.api.size_exact", C05M, "verif_c05::size_exact", {"C05": "D"}, needs=(REF, PROBES), fns=["postcard::experimental::serialized_size"],
+  note="serialized_size(v) == output length for every value of the probe enum; 0 for the unit")
+K("C06.K.api.entry_points", C06M, "verif_c06::api_entry_points", {"C06": "D", "C01": "S"}, needs=(REF, PROBES),
+  fns=["postcard::to_slice_cobs", "postcard::to_vec_cobs", "postcard::to_allocvec_cobs", "postcard::to_stdvec_cobs"],
+  note="all COBS entry points (slice, heapless vector, growable vector) produce the same frame for every value of the probe")
+K("C06.K.api.empty_message", C06M, "verif_c06::api_empty_message", {"C06": "D"}, needs=(REF, PROBES),
+  fns=["postcard::to_slice_cobs", "postcard::to_vec_cobs", "postcard::to_allocvec_cobs"], note="the frame of an EMPTY plain encoding is [0x01, 0x00] through each entry point")
+K("C06.K.api.empty_message_std", C06M, "verif_c06::api_empty_message_std", {"C06": "D"}, needs=(REF, PROBES), fns=["postcard::to_stdvec_cobs"], note="... also through to_stdvec_cobs")
+K("C02.K.collect_str_char", EM, "verif_emit::emit_collect_str_char", {"C02": "D"}, label="bounded(one char + one piece <= 2 bytes)", fns=[SER + "collect_str"],
+  note="collect_str when the Display impl uses write_char (every unicode scalar incl. multi-byte): varint(total UTF-8 length) ++ text")
+FNVK = "postcard-schema/src/key/hash.rs::verif_fnv"
+for k, f in [("hash_update", HS + "fnv1a64::hash_update"), ("hash_update_str", HS + "fnv1a64::hash_update_str"), ("hasher", HS + "Fnv1a64Hasher::{new,update,digest,digest_bytes}")]:
+    K("C16.K.fnv." + k, FNVK, "verif_fnv::fnv_" + k, {"C16": "D"}, label="bounded(len<=4)" if k != "hasher" else "complete", fns=[f],
+      note="non-recursive FNV primitive == independently written FNV-1a 64 for every state and every byte value (incl. >= 0x80, multi-byte strings)", **SCH)
+for o in OBLIGATIONS:
+    if o["id"] == "C16.V.fnv.hash_update": o["witness"] = "C16.K.fnv.hash_update"
+    if o["id"] == "C16.V.fnv.hash_update_str": o["witness"] = "C16.K.fnv.hash_update_str"
